@@ -642,6 +642,16 @@ func (s *Stream) ProcessSync(data map[string]any) (map[string]any, error) {
 func (s *Stream) enrichData(data map[string]any) (dataMap map[string]any, keep bool, err error) {
 	dataMap = data
 	if !s.hasJoin() {
+		// evalAnalytic and injectGroupKeyExprs write analytic results, WHERE placeholders
+		// and computed group keys into the row. Without a JOIN (which already works on
+		// a copy) the row is the caller's own map: copy it first so Emit/EmitSync leave
+		// the caller's data untouched.
+		if s.injectsIntoRow() {
+			dataMap = make(map[string]any, len(data)+4)
+			for k, v := range data {
+				dataMap[k] = v
+			}
+		}
 		return dataMap, true, nil
 	}
 	wm, k, jerr := s.enrichJoin(data)
@@ -652,6 +662,20 @@ func (s *Stream) enrichData(data map[string]any) (dataMap map[string]any, keep b
 		return dataMap, false, nil // INNER JOIN 无匹配：丢弃
 	}
 	return wm, true, nil
+}
+
+// injectsIntoRow reports whether row processing adds keys to the row map (analytic
+// aliases / WHERE placeholders / function-expression GROUP BY keys).
+func (s *Stream) injectsIntoRow() bool {
+	if len(s.config.AnalyticFields) > 0 || len(s.config.WhereAnalyticCalls) > 0 {
+		return true
+	}
+	for _, gf := range s.config.GroupFields {
+		if strings.Contains(gf, "(") {
+			return true
+		}
+	}
+	return false
 }
 
 // applyWhereAndAnalytic 按 WHERE 是否引用分析函数决定求值序，并应用 WHERE 过滤。
